@@ -1,5 +1,7 @@
 #!/usr/bin/env python3
-"""Translate crc16_table[] and crc16_octet() of src/crc-16-arc.c into coq/Gen/CrcGen.v."""
+"""Translate crc16_table[], the octet step function (found as the local function ufw_crc16_arc applies per octet,
+whatever its name; initialised locals are substituted) and the octet order of ufw_crc16_arc_u16 of src/crc-16-arc.c
+into coq/Gen/CrcGen.v."""
 import sys, os
 
 def write_if_changed(path, text):
@@ -14,15 +16,41 @@ def write_if_changed(path, text):
 sys.path.insert(0, os.path.dirname(os.path.abspath(__file__)))
 from cast import *
 
+def all_functions(src):
+    """name -> FunctionDecl with a body, for every function defined in the file"""
+    fns = {}
+    def walk(n):
+        if n.get('kind') == 'FunctionDecl' and any(c.get('kind') == 'CompoundStmt' for c in n.get('inner', [])):
+            fns[n['name']] = n
+        for c in n.get('inner', []):
+            if isinstance(c, dict):
+                walk(c)
+    for o in clang_ast(src, 'crc16'):
+        walk(o)
+    return fns
+
+def calls_in(n, out, inside_call=False):
+    """CallExpr nodes in source order that are not arguments of another collected call"""
+    if n.get('kind') == 'CallExpr' and not inside_call:
+        out.append(n)
+        inside_call = True
+    for c in n.get('inner', []):
+        if isinstance(c, dict):
+            calls_in(c, out, inside_call)
+
 def main(out):
     src = REPO + '/src/crc-16-arc.c'
-    fn = None
-    for o in clang_ast(src, 'crc16_octet'):
-        f = find(o, 'FunctionDecl', 'crc16_octet')
-        if f is not None and find(f, 'CompoundStmt') is not None:
-            fn = f
-    if fn is None:
-        raise Untranslatable('crc16_octet not found')
+    fns = all_functions(src)
+    if 'ufw_crc16_arc' not in fns or 'ufw_crc16_arc_u16' not in fns:
+        raise Untranslatable('ufw_crc16_arc / ufw_crc16_arc_u16 not found')
+    # the octet step: the file-local function the octet loop of ufw_crc16_arc calls (whatever its name)
+    cs = []
+    calls_in(fns['ufw_crc16_arc'], cs)
+    steps = [callee_name(c) for c in cs if callee_name(c) in fns]
+    if len(set(steps)) != 1:
+        raise Untranslatable('ufw_crc16_arc: expected calls to exactly one local step function, found %r' % steps)
+    step = steps[0]
+    fn = fns[step]
     tab = None
     for o in clang_ast(src, 'crc16_table'):
         v = find(o, 'VarDecl', 'crc16_table')
@@ -31,48 +59,71 @@ def main(out):
     if tab is None:
         raise Untranslatable('crc16_table not found')
     vals = table_values(tab)
-    ps = params(fn)
-    if [p[0] for p in ps] != ['crc', 'data']:
-        raise Untranslatable('unexpected parameters %r' % ps)
-    body = expr(single_return(fn))
-    # which octet of a uint16_t ufw_crc16_arc_u16 feeds first: taken from the loop body
-    u16 = None
-    for o in clang_ast(src, 'ufw_crc16_arc_u16'):
-        f = find(o, 'FunctionDecl', 'ufw_crc16_arc_u16')
-        if f is not None and find(f, 'CompoundStmt') is not None:
-            u16 = f
-    if u16 is None:
-        raise Untranslatable('ufw_crc16_arc_u16 not found')
+    ps0 = params(fn)
+    if len(ps0) != 2:
+        raise Untranslatable('unexpected parameters %r' % ps0)
+    # canonical parameter names (the model binds "crc" and "data")
+    ps = [('crc', ps0[0][1]), ('data', ps0[1][1])]
+    ret, env = body_expr(fn, {ps0[0][0]: '(Var "crc")', ps0[1][0]: '(Var "data")'})
+    body = expr(ret, (), env)
+    # which octet of a uint16_t ufw_crc16_arc_u16 feeds first: the two applications of the step function, in order
+    def is_step(n):
+        n = strip_casts(n)
+        return n.get('kind') == 'CallExpr' and callee_name(n) == step
+    def chain(call):
+        """data arguments of nested applications step(step(s, A), B) in application order"""
+        call = strip_casts(call)
+        a0, a1 = call['inner'][1], call['inner'][2]
+        return (chain(a0) if is_step(a0) else []) + [a1]
+    def word_leaf(word_param):
+        def leaf(n):
+            k = n['kind']
+            if k == 'UnaryOperator' and n.get('opcode') == '*':
+                return '(Var "w")'
+            if k == 'ArraySubscriptExpr':
+                return '(Var "w")'
+            if k == 'DeclRefExpr' and word_param is not None and n['referencedDecl']['name'] == word_param:
+                return '(Var "w")'
+            return None
+        return leaf
+    def local_env(f, leaf):
+        """initialised integer locals declared anywhere in f, substituted (declarations that are not integer expressions are skipped)"""
+        env = {}
+        def walk(n):
+            if n.get('kind') == 'VarDecl' and n.get('inner'):
+                try:
+                    env[n['name']] = '(Cast %s %s)' % (coq_ty(ctype(n)), expr(n['inner'][-1], (), env, leaf))
+                except Untranslatable:
+                    pass
+            for c in n.get('inner', []):
+                if isinstance(c, dict):
+                    walk(c)
+        walk(f)
+        return env
+    u16 = fns['ufw_crc16_arc_u16']
     calls = []
-    def walk(n):
-        if n.get('kind') == 'CallExpr':
-            calls.append(n)
-        for c in n.get('inner', []):
-            walk(c)
-    walk(u16)
-    if len(calls) != 2:
-        raise Untranslatable('ufw_crc16_arc_u16: expected two crc16_octet calls')
-    # each call's 2nd argument: expression over *buffer; translate with "w" for *buffer
-    def arg_expr(n):
-        k = n['kind']
-        if k == 'UnaryOperator' and n.get('opcode') == '*':
-            return '(Var "w")'
-        if k in ('ParenExpr',):
-            return arg_expr(n['inner'][0])
-        if k == 'ImplicitCastExpr':
-            ck = n.get('castKind')
-            if ck in ('LValueToRValue', 'NoOp'):
-                return arg_expr(n['inner'][0])
-            if ck == 'IntegralCast':
-                return '(Cast %s %s)' % (coq_ty(ctype(n)), arg_expr(n['inner'][0]))
-            raise Untranslatable('cast ' + str(ck))
-        if k == 'BinaryOperator':
-            return '(Bin %s %s %s %s)' % (BINOPS[n['opcode']], coq_ty(ctype(n)),
-                                          arg_expr(n['inner'][0]), arg_expr(n['inner'][1]))
-        if k == 'IntegerLiteral':
-            return '(Lit %s)' % n['value']
-        raise Untranslatable('u16 arg ' + k)
-    a1 = arg_expr(calls[0]['inner'][2]); a2 = arg_expr(calls[1]['inner'][2])
+    calls_in(u16, calls)
+    direct = [c for c in calls if callee_name(c) == step]
+    helper = [c for c in calls if callee_name(c) in fns and callee_name(c) != step]
+    if direct and not helper:
+        leaf = word_leaf(None)
+        env16 = local_env(u16, leaf)
+        args = sum((chain(c) for c in direct), [])
+    elif len(helper) == 1 and not direct:
+        h = fns[callee_name(helper[0])]
+        hp = params(h)
+        if len(hp) != 2:
+            raise Untranslatable('word helper: unexpected parameters %r' % hp)
+        leaf = word_leaf(hp[1][0])
+        hret, env16 = body_expr(h, {}, leaf)
+        if not is_step(hret):
+            raise Untranslatable('word helper does not return an application of the step function')
+        args = chain(hret)
+    else:
+        raise Untranslatable('ufw_crc16_arc_u16: cannot find the two applications of the step function')
+    if len(args) != 2:
+        raise Untranslatable('ufw_crc16_arc_u16: expected two applications of the step function, found %d' % len(args))
+    a1 = expr(args[0], (), env16, leaf); a2 = expr(args[1], (), env16, leaf)
     import io
     f = io.StringIO()
     if True:
